@@ -216,7 +216,8 @@ class FilesystemIsolation(ContextDecorator):
             new_paths = self._new_paths(target)
             res = original_func(path_self, target)
             try:
-                self._forget(path_self)
+                if not os.path.lexists(abs_path):  # noqa: PTH110
+                    self._forget(path_self)
                 self._record_created(*new_paths)
             except Exception:  # noqa: BLE001
                 _LOGGER.warning(
